@@ -127,7 +127,7 @@ class FuncGen:
             sz = T.size_align(t)[0]
             if sz > 8:
                 raise IRError('load wider than 8 bytes')
-            sid = tr.site_set(self.fname, pt, pv)
+            sid = tr.site_set(self.fname, pt, pv, 'r')
             if isinstance(sid, str):
                 self.emit('%s = LDP(pa_%s, %s - %dUL, %d, %d);' % (self.dest(res), sid[1:], self.v(pt, pv), (0xD0000 + int(sid[1:])) << 20, sz, self.psize(sid)))
             else:
@@ -146,7 +146,7 @@ class FuncGen:
             sz = T.size_align(vt)[0]
             if sz > 8:
                 raise IRError('store wider than 8 bytes')
-            sid = tr.site_set(self.fname, pt, pv)
+            sid = tr.site_set(self.fname, pt, pv, 'w')
             if isinstance(sid, str):
                 self.emit('STP(pa_%s, %s - %dUL, %s, %d, %d);' % (sid[1:], self.v(pt, pv), (0xD0000 + int(sid[1:])) << 20, self.v(vt, vv), sz, self.psize(sid)))
             else:
@@ -321,7 +321,7 @@ class FuncGen:
             self.emit('%sVM_MALLOC(%d, %s, %d);' % (d, s['id'], size, 1 if name == 'calloc' else 0))
             return
         if name == 'free':
-            self.emit('VM_FREE(%d, %s);' % (tr.site_set(self.fname, args[0][0], args[0][1]) if tr.mode != 'native' else 0, cargs[0]))
+            self.emit('VM_FREE(%d, %s);' % (tr.site_set(self.fname, args[0][0], args[0][1], 'f') if tr.mode != 'native' else 0, cargs[0]))
             return
         if name in ('abort', 'exit', '__assert_fail', '_exit'):
             self.emit('vm_abort(); return 0;')
@@ -351,7 +351,7 @@ class FuncGen:
         if not re.fullmatch(r'\d+', lv.strip()) or not re.fullmatch(r'-?\d+', vv.strip()):
             raise IRError('memset with non-constant length/value')
         n, b = int(lv), int(vv) & 0xff
-        sid = tr.site_set(self.fname, dt, dv)
+        sid = tr.site_set(self.fname, dt, dv, 'w')
         base = self.v(dt, dv)
         off = 0
         while off < n:
@@ -369,7 +369,7 @@ class FuncGen:
         if not re.fullmatch(r'\d+', lv.strip()):
             raise IRError('memcpy with non-constant length')
         n = int(lv)
-        ds, ss = tr.site_set(self.fname, dt, dv), tr.site_set(self.fname, st, sv)
+        ds, ss = tr.site_set(self.fname, dt, dv, 'w'), tr.site_set(self.fname, st, sv, 'r')
         off = 0
         while off < n:
             sz = 8 if n - off >= 8 else 4 if n - off >= 4 else 2 if n - off >= 2 else 1
@@ -481,11 +481,10 @@ def generate(Translator, ll, mode, outp, spec, init_objects):
     tr.icall_arities = set()
     tr.externals = set()
     tr.assert_msgs = []
-    tr.parking = set(spec.get('parking', []))
-    roots = ['vm_init', 'vm_final'] + ['vm_thread_%d' % t for t in range(1, tr.nthreads + 1)] + spec.get('roots', [])
-    for r in roots[:1]:
-        if r not in mod.funcs:
-            raise IRError('harness lacks ' + r)
+    tr.parking = set(spec.get('parking', [])) | {'vm_spin'}
+    roots = ['vm_init', 'vm_setup', 'vm_final'] + ['vm_thread_%d' % t for t in range(1, tr.nthreads + 1)] + spec.get('roots', [])
+    if 'vm_init' not in mod.funcs:
+        raise IRError('harness lacks vm_init')
     funcs = tr.reachable([r for r in roots if r in mod.funcs])
     # indirectly callable functions referenced only through globals are included by reachable()
     funcs = [f for f in funcs if f not in spec.get('replace', {})]
@@ -499,6 +498,9 @@ def generate(Translator, ll, mode, outp, spec, init_objects):
         p, b = FuncGen(tr, f).run()
         protos.append(p)
         bodies.append(b)
+    if mode == 'cbmc':
+        from ir2cell import classify_cells
+        classify_cells(tr, funcs)
     out = []
     out.append('/* generated by ir2cell from %s (mode %s) -- do not edit */' % (os.path.basename(ll), mode))
     out.append('#define VM_NTHREADS %d' % tr.nthreads)
@@ -534,30 +536,82 @@ def generate(Translator, ll, mode, outp, spec, init_objects):
         'assertions': sorted(set(tr.assert_msgs)),
         'sites': [s['key'] for s in tr.sites],
         'set_sizes': [len(tr.cells_for_key(k)) for k in tr.set_keys] if mode == 'cbmc' else [],
+        'cell_classes': getattr(tr, 'class_stats', {}),
     }
     json.dump(info, open(outp + '.info.json', 'w'), indent=1)
 
 
+def cell_init(tr, o, c):
+    snap = getattr(o, 'snap', None)
+    if snap is None or c >= len(snap):
+        return None
+    return snap[c]
+
+
 def gen_memory_cbmc(tr):
     out = []
-    # cells
+    cls = tr.cell_class
+    tr.shadow_in = {t: [] for t in range(1, tr.nthreads + 1)}
+    tr.shadow_out = {t: [] for t in range(1, tr.nthreads + 1)}
+    tr.nondet_init = []
+    stats = {'ro_const': 0, 'ro_sym': 0, 'excl': 0, 'shared': 0}
+    arms_ld, arms_st = {}, {}
     for o in tr.objs:
-        out.append('/* obj %d %s size %d */ W %s;' % (o.oid, o.name, o.size, ', '.join(o.cell(c) for c in range(o.ncells))))
+        decl = []
+        for c in range(o.ncells):
+            cell = (o.oid, c)
+            k = cls.get(cell, 'shared')
+            init = cell_init(tr, o, c)
+            sym = init is None or cell in tr.setup_written
+            m = o.cell(c)
+            addr = o.base + 8 * c
+            live = ('VM_LIVE(lv_%d); ' % o.oid) if o.dies else ''
+            if init is not None:
+                decl.append('%s = %dUL' % (m, init))
+            else:
+                decl.append(m)
+                if hasattr(o, 'snap') or o.kind in ('heap', 'alloca'):
+                    tr.nondet_init.append('%s = nondet_W();' % m)
+            if k == 'ro' and not sym:
+                stats['ro_const'] += 1
+                arms_ld[cell] = 'case %dUL: %sreturn %dUL;' % (addr, live, init)
+                arms_st[cell] = 'case %dUL: VM_ASSERT(0, "encoding: store to a cell classified read-only (no verdict)"); return;' % addr
+            elif k == 'ro':
+                stats['ro_sym'] += 1
+                sh = 's%d_%d' % (o.oid, c)
+                out.append('__CPROVER_thread_local W %s;' % sh)
+                for t in tr.shadow_in:
+                    tr.shadow_in[t].append('%s = %s;' % (sh, m))
+                arms_ld[cell] = 'case %dUL: %sreturn vm_tid ? %s : %s;' % (addr, live, sh, m)
+                arms_st[cell] = 'case %dUL: if (vm_tid) VM_ASSERT(0, "encoding: store to a cell classified read-only (no verdict)"); %s = v; return;' % (addr, m)
+            elif isinstance(k, tuple):
+                stats['excl'] += 1
+                t = k[1]
+                sh = 's%d_%d' % (o.oid, c)
+                out.append('__CPROVER_thread_local W %s;' % sh)
+                tr.shadow_in[t].append('%s = %s;' % (sh, m if sym else '%dUL' % init))
+                tr.shadow_out[t].append('%s = %s;' % (m, sh))
+                arms_ld[cell] = 'case %dUL: %sreturn vm_tid == %d ? %s : %s;' % (addr, live, t, sh, m)
+                arms_st[cell] = 'case %dUL: %sif (vm_tid == %d) %s = v; else %s = v; return;' % (addr, live, t, sh, m)
+            else:
+                stats['shared'] += 1
+                arms_ld[cell] = 'case %dUL: %sreturn %s;' % (addr, live, m)
+                arms_st[cell] = 'case %dUL: %s%s = v; return;' % (addr, live, m)
+        out.append('/* obj %d %s size %d */ W %s;' % (o.oid, o.name, o.size, ', '.join(decl)))
         if o.dies:
-            out.append('_Bool lv_%d = %d;' % (o.oid, 1 if (o.kind == 'heap' and o.name.startswith('init')) else 0))
-    # range table
+            lv0 = getattr(o, 'init_live', 0) if hasattr(o, 'snap') else 0
+            out.append('_Bool lv_%d = %d;' % (o.oid, 1 if lv0 else 0))
+    tr.class_stats = stats
     conds = ' || '.join('((a >> 20) == %dUL && (a & 0xfffffUL) < %dUL)' % (o.oid + 1, o.size) for o in tr.objs) or '0'
     out.append('static _Bool vm_inrange(W a){ return %s; }' % conds)
-    # candidate sets
     for k, key in enumerate(tr.set_keys):
         cells = tr.cells_for_key(key)
-        ld = ' '.join('case %dUL: %sreturn %s;' % (o.base + 8 * c, ('VM_LIVE(lv_%d); ' % o.oid) if o.dies else '', o.cell(c)) for o, c in cells)
-        st = ' '.join('case %dUL: %s%s = v; return;' % (o.base + 8 * c, ('VM_LIVE(lv_%d); ' % o.oid) if o.dies else '', o.cell(c)) for o, c in cells)
+        ld = ' '.join(arms_ld[(o.oid, c)] for o, c in cells)
+        st = ' '.join(arms_st[(o.oid, c)] for o, c in cells)
         desc = 'TOP' if key is None else ' '.join(sorted('%s+%s' % (a, b) for a, b in key))[:150]
         desc = '[set %d: %s]' % (k, desc.replace('"', '').replace('\\', ''))
         out.append('static W cl_%d(W a){ switch(a){ %s default: VM_BADADDR(a, "%s"); return 0; } }' % (k, ld, desc))
         out.append('static void cs_%d(W a, W v){ switch(a){ %s default: VM_BADADDR(a, "%s"); return; } }' % (k, st, desc))
-        # free: object bases in this set
         objs = []
         for o, c in cells:
             if c == 0 and o.dies and o.kind == 'heap' and o not in objs:
@@ -566,32 +620,32 @@ def gen_memory_cbmc(tr):
                       % (o.base, o.oid, o.oid) for o in objs)
         out.append('static void fr_%d(W a){ switch(a){ case 0UL: return; %s default: vm_badfree(a); return; } }' % (k, fr))
     out.append('#define SETS(X) ' + ' '.join('X(%d)' % k for k in range(len(tr.set_keys))))
-    # malloc pools / allocas per site
     for s in tr.sites:
-        arms = []
         if s['kind'] == 'heap':
-            initobjs = s.get('init_objs', [])
             body = 'static W vm_malloc_%d(W size, int zero){ ' % s['id']
-            body += 'if (vm_tid == 0) { switch (vm_cnt_%d++) { %s default: VM_ASSERT(0, "encoding: init-phase allocation not seen in the native pre-run"); return 0; } } ' % (
-                s['id'], ' '.join('case %d: VM_ASSERT(size <= %dUL, "encoding: init object size differs from pre-run"); if (zero) { %s } return %dUL;'
-                                  % (i, o.size, ' '.join('%s = 0;' % o.cell(c) for c in range(o.ncells)), o.base)
-                                  for i, o in enumerate(initobjs)))
             for tid, objs in s.get('pool', {}).items():
                 body += 'if (vm_tid == %d) { switch (vm_cnt_%d++) { %s default: break; } } ' % (
                     tid, s['id'], ' '.join('case %d: VM_ASSERT(size <= %dUL, "encoding: pool object too small"); lv_%d = 1; if (zero) { %s } return %dUL;'
-                                           % (i, o.size, o.oid, ' '.join('%s = 0;' % o.cell(c) for c in range(o.ncells)), o.base) for i, o in enumerate(objs)))
+                                           % (i, o.size, o.oid, ' '.join('cs_any(%dUL, 0);' % (o.base + 8 * c) for c in range(o.ncells)), o.base) for i, o in enumerate(objs)))
             body += 'VM_ASSERT(0, "encoding: allocation pool exhausted (declare a pool for site %s)"); __CPROVER_assume(0); return 0; }' % s['key']
             out.append('__CPROVER_thread_local int vm_cnt_%d;' % s['id'])
+            out.append('static void cs_any(W a, W v);')
             out.append(body)
-        else:
+        elif not s.get('private'):
             objs = s.get('pool', {})
             out.append('static W vm_alloca_%d(void){ switch (vm_tid) { %s default: VM_ASSERT(0, "encoding: alloca site %s reached by unexpected thread"); return 0; } }'
                        % (s['id'], ' '.join('case %d: %s return %dUL;' % (t, ('lv_%d = 1;' % o[0].oid) if o[0].dies else '', o[0].base) for t, o in objs.items()), s['key']))
             out.append('static void vm_alloca_end_%d(void){ switch (vm_tid) { %s default: return; } }'
                        % (s['id'], ' '.join('case %d: %s return;' % (t, ('lv_%d = 0;' % o[0].oid) if o[0].dies else '') for t, o in objs.items())))
+    # generic store used for zeroing pool objects (pool cells are always class shared)
+    allst = ' '.join(arms_st[(o.oid, c)] for o in tr.objs if o.kind == 'heap' and not hasattr(o, 'snap') for c in range(o.ncells))
+    out.append('static void cs_any(W a, W v){ switch(a){ %s default: return; } }' % allst)
     out.append('#define VM_MALLOC(site, size, zero) vm_malloc_##site(size, zero)')
     out.append('#define VM_ALLOCA(site) vm_alloca_##site()')
     out.append('#define VM_ALLOCA_END(site) vm_alloca_end_##site()')
+    for t in tr.shadow_in:
+        out.append('static void vm_shadow_in_%d(void){ %s }' % (t, ' '.join(tr.shadow_in[t])))
+        out.append('static void vm_shadow_out_%d(void){ %s }' % (t, ' '.join(tr.shadow_out[t])))
     return out
 
 
@@ -619,16 +673,12 @@ def gen_main(tr, mod):
                     e = ' | '.join('((W)(%s) << %d)' % (v if isinstance(v, str) else '%dUL' % v, sh * 8) for sh, size, v in parts)
                     init.append('VM_INIT_CELL(%d, %d, %s);' % (o.oid, c, e))
     if tr.mode == 'cbmc':
-        for o in tr.objs:
-            if o.kind in ('heap', 'alloca') and not tr.spec.get('zero_malloc'):
-                # malloc'ed memory and stack slots hold arbitrary garbage until written
-                for c in range(o.ncells):
-                    init.append('%s = nondet_W();' % o.cell(c))
-        out.append('void vm_static_init(void){ %s }' % '\n  '.join(init))
-        out.append('static void vm_cells_init(void){ vm_static_init(); }')
         for t in range(1, tr.nthreads + 1):
-            out.append('void thr_%d(void){ vm_thread_begin(%d); f_vm_thread_%d(); vm_thread_end(%d); }' % (t, t, t, t))
-        m = ['int main(void){', '  vm_tid = 0; vm_kt = 0;', '  vm_cells_init();', '  f_vm_init();', '  vm_start();']
+            out.append('void thr_%d(void){ vm_thread_begin(%d); vm_shadow_in_%d(); f_vm_thread_%d(); if (!vm_dead) vm_shadow_out_%d(); vm_thread_end(%d); }' % (t, t, t, t, t, t))
+        m = ['int main(void){', '  vm_tid = 0; vm_kt = 0;', '  ' + ' '.join(tr.nondet_init)]
+        if 'vm_setup' in mod.funcs:
+            m.append('  f_vm_setup();')
+        m.append('  vm_start();')
         for t in range(1, tr.nthreads + 1):
             m.append('  __CPROVER_ASYNC_%d: thr_%d();' % (t, t))
         m.append('  vm_monitor();')
